@@ -39,10 +39,12 @@ ADDSETS = {
     "sinkK": ["vp_sink.K"],
     "mixed": ["collections.Counter", "argparse.Action", "vp_other.K"],
 }
+# two modules the built-in list does not know, each with a different member: nothing "crosses over"
+ADDSETS["twonew"] = ["vp_sink.K", "vp_other.hit", "decimal.Decimal"]
 ADDSETS["variants"] = ["numpy._core.multiarray.scalar", "torch._utils._rebuild_qtensor", "collections.abc.Mapping",
                        "_io.StringIO", "copyreg.__newobj__", "__main__.Other"]
-OPS = ["act:none", "act:counter", "act:sinkK", "act:mixed", "act:variants", "deact", "inst:counter", "inst:sinkK",
-       "inst:none", "inst:variants"]
+OPS = ["act:none", "act:counter", "act:sinkK", "act:mixed", "act:variants", "act:twonew", "deact", "inst:counter", "inst:sinkK",
+       "inst:none", "inst:variants", "inst:twonew"]
 
 PROBES = {
     "collections.OrderedDict": b"ccollections\nOrderedDict\n)R.",      # in BASE
@@ -52,6 +54,8 @@ PROBES = {
     "vp_sink.K": b"cvp_sink\nK\n.",                                    # new module
     "vp_other.K": b"cvp_other\nK\n.",                                  # new module
     "collections.deque": b"ccollections\ndeque\n)R.",                  # never added
+    "vp_sink.hit": b"cvp_sink\nhit\n.",                                # never added (vp_other.hit / vp_sink.K are)
+    "decimal.K": b"cdecimal\nK\n.", "vp_other.Decimal": b"cvp_other\nDecimal\n.", "decimal.hit": b"cdecimal\nhit\n.",
     # variant spellings / new members of other listed modules (resolved only, never called; a module that is
     # not installed simply fails to import *after* the allowlist decision, which still counts as allowed)
     "numpy._core.multiarray.scalar": b"cnumpy._core.multiarray\nscalar\n.",
@@ -65,7 +69,7 @@ STATIC_PICKLE = b"ccollections\nCounter\n)R."
 
 
 def histories(ctx):
-    L = {"quick": 4, "thorough": 6}[ctx.tier]
+    L = {"quick": 4, "thorough": 5}[ctx.tier]
     idx = 0
     for n in range(1, L + 1):
         for hist in itertools.product(OPS, repeat=n):
